@@ -56,6 +56,8 @@ func (s Script) err() error {
 		return io.EOF
 	case "unexpected EOF":
 		return io.ErrUnexpectedEOF
+	case "wrapped EOF":
+		return fmt.Errorf("wrapped %w", io.EOF) // its text is "wrapped EOF"
 	}
 	if s.Err != "" || s.HasErr {
 		return errors.New(s.Err)
